@@ -840,3 +840,65 @@ def n1_cfg(text, eval_cfg):
         recs.append(dict(rule='N1', before='#[cfg] (false) ' + squash(text[toks[k].start:toks[end].end])[:60], after=''))
         text = text[:toks[k].start] + text[toks[end].end:]
     return text, recs
+
+
+def n4c_map(text):
+    """N4c: `X.map(|v| B)` -> `match X { Some(v) => Some(B), None => None }` (definitional unfolding of Option::map;
+    applied where the closure captures `&mut`, which Verus rejects)."""
+    recs = []
+    while True:
+        ft = FnText(text)
+        toks = ft.toks
+        hit = None
+        for k in ft.c:
+            t = toks[k]
+            if t.kind == 'ident' and t.text == 'map' and toks[ft.prevc(k)].text == '.':
+                po = ft.nextc(k)
+                if toks[po].text != '(':
+                    continue
+                b = ft.nextc(po)
+                if toks[b].text != '|':
+                    continue
+                v = ft.nextc(b)
+                if toks[v].kind != 'ident' or toks[ft.nextc(v)].text != '|':
+                    continue
+                close = match_close(toks, po)
+                body_txt = text[toks[ft.nextc(ft.nextc(v))].start:toks[close].start]
+                if '&mut' not in body_txt:
+                    continue
+                body0 = ft.nextc(ft.nextc(v))
+                dot = ft.prevc(k)
+                j = dot - 1
+                depth = 0
+                start = None
+                while j >= 0:
+                    w = toks[j]
+                    if w.kind == 'punct':
+                        if w.text in CLOSE:
+                            depth += 1
+                        elif w.text in OPEN:
+                            if depth == 0:
+                                start = j + 1
+                                break
+                            depth -= 1
+                        elif depth == 0 and w.text in ('=', ';', ',', '=>'):
+                            start = j + 1
+                            break
+                    elif w.kind == 'ident' and depth == 0 and w.text in ('return', 'in', 'else'):
+                        start = j + 1
+                        break
+                    j -= 1
+                while toks[start].kind in ('ws', 'lcomment', 'bcomment', 'doc'):
+                    start += 1
+                hit = (start, dot, v, body0, close)
+                break
+        if hit is None:
+            break
+        start, dot, v, body0, close = hit
+        name = toks[v].text
+        edits = [(toks[start].start, toks[start].start, 'match '),
+                 (toks[dot].start, toks[body0].start, ' { Some(%s) => Some(' % name),
+                 (toks[close].start, toks[close].end, '), None => None }')]
+        text = apply_edits(text, edits)
+        recs.append(dict(rule='N4c', before='X.map(|%s| B) with B capturing &mut' % name, after='match X { Some(%s) => Some(B), None => None }' % name))
+    return text, recs
